@@ -256,6 +256,7 @@ def run(tier):
     import mc_timeline
 
     mc_timeline.run_abstract(chk, quick, rnd)
+    mc_timeline.replay_registration(chk, quick)
     raw = export_raw()
     impls = export_impls()
     raw_file = chk.work / "raw.json"
